@@ -148,6 +148,11 @@ class Run:
         self.discharged = 0
         self.axioms = {}
         self.checker_cmds = []
+        # hooks for runner/apicov.py (coverage-instrumented harness builds); empty in a normal check
+        self.build_flags = []
+        self.bin_suffix = ""
+        self.extra_env = {}
+        self.extra_test_args = []
 
     def log(self, name, text):
         with open(os.path.join(self.rundir, name), "w") as f:
@@ -336,14 +341,14 @@ class Run:
     def build_harness(self, h):
         moddir = h.get("module", "harness")
         gobin = h.get("go", "go")
-        out = os.path.join(BUILD, "bin", h["name"] + ("" if REPO == "/repo" else "-" + hashlib.sha256(REPO.encode()).hexdigest()[:8]))
+        out = os.path.join(BUILD, "bin", h["name"] + self.bin_suffix + ("" if REPO == "/repo" else "-" + hashlib.sha256(REPO.encode()).hexdigest()[:8]))
         mf = self.modfile(moddir)
         extra = ["-modfile=" + mf] if mf else []
         tags = "verif" + (",race" if False else "")
         if h.get("kind") == "test":
-            cmd = [gobin, "test", "-c", "-tags", tags] + extra + (["-race"] if h.get("race") else []) + ["-o", out, h["pkg"]]
+            cmd = [gobin, "test", "-c", "-tags", tags] + extra + self.build_flags + (["-race"] if h.get("race") else []) + ["-o", out, h["pkg"]]
         else:
-            cmd = [gobin, "build", "-tags", tags] + extra + (["-race"] if h.get("race") else []) + ["-o", out, h["pkg"]]
+            cmd = [gobin, "build", "-tags", tags] + extra + self.build_flags + (["-race"] if h.get("race") else []) + ["-o", out, h["pkg"]]
         rc, o = sh(cmd, cwd=os.path.join(VERIF, moddir), env=GOENV, timeout=900)
         self.log("build_%s.log" % h["name"], o)
         if rc != 0:
@@ -364,8 +369,9 @@ class Run:
                    VERIF_OUT=outp, VERIF_CORPUS=os.path.join(VERIF, "corpus", self.prop),
                    VERIF_BUDGET_MS=str(budget), VERIF_DEEP="1" if deep else "", VERIF_REPO=REPO,
                    VERIF_REPLAY=replay or "")
+        env.update(self.extra_env)
         if h.get("kind") == "test":
-            cmd = [exe, "-test.run", h.get("run", "TestVerif"), "-test.timeout", "0", "-test.count", "1"]
+            cmd = [exe, "-test.run", h.get("run", "TestVerif"), "-test.timeout", "0", "-test.count", "1"] + self.extra_test_args
         else:
             cmd = [exe]
         timeout = budget / 1000.0 * h.get("timeout_factor", 6) + 120
